@@ -138,7 +138,7 @@ KERNELS = [
            bounds='as C01-K3; every script-hash class of the scenario, every limit in 0..n+1 and None',
            outside='as C01-K3; flush ids beyond 65535',
            assumptions=['LevelDB modelled by MemStore', 'meta files modelled by MemFS'],
-           witnesses=1, prescribe=('sha256',)),
+           witnesses=1, prescribe=('sha256',), split_depth=14),
     Kernel('K1', k1, k1_shapes,
            desc='history rows over several flushes, symbolic script hashes / touched subsets / limit',
            encodes=['electrumx/server/history.py:History.add_unflushed', 'flush', 'get_txnums', 'write_state',
